@@ -9,6 +9,7 @@ import (
 	"strings"
 	"sync"
 
+	"go.opentelemetry.io/collector/otelcol"
 	"go.opentelemetry.io/collector/verifharness/vt"
 )
 
@@ -197,6 +198,7 @@ func checkFaithful(c *vt.C, script any, k *compKind, typed reflect.Value, eff ma
 	for _, x := range ws {
 		written[x.key()] = true
 	}
+	def := reflect.ValueOf(k.newCfg())
 	for _, x := range ws {
 		if isMarker(x) {
 			if _, ok := lookup(typed, x.P); !ok {
@@ -221,12 +223,34 @@ func checkFaithful(c *vt.C, script any, k *compKind, typed reflect.Value, eff ma
 		if d := checkTyped(tv, x.V); d != "" {
 			return vt.Failf("typed/"+where+"::"+x.key(), "%s %v: wrote %s = %s, %s", where, effPrefix, x.key(), x.V, d)
 		}
+		dv, _ := lookup(def, x.P) // invalid: the section is nil by default, a created section starts from zero
+		if dv.IsValid() && !emptyTyped(dv) && emptyTyped(tv) {
+			c.Class("zero-over-nonzero-default:" + typeLabel(n.Type))
+		}
+		if x.V.K == "upath" {
+			for _, f := range pathFeatures(x.V.S) {
+				c.Class("url-path:" + f)
+			}
+		}
+		if x.V.K == "str" && strings.Contains(x.V.S, "://") {
+			if i := strings.Index(x.V.S[strings.Index(x.V.S, "://")+3:], "/"); i >= 0 {
+				for _, f := range pathFeatures(x.V.S[strings.Index(x.V.S, "://")+3+i:]) {
+					c.Class("url-endpoint-path:" + f)
+				}
+			} else {
+				c.Class("url-endpoint-path:none")
+			}
+		}
 		if eff != nil {
 			ev, present := effLookup(eff, append(append([]string{}, effPrefix...), x.P...))
-			if d := checkEff(ev, present, tv, x.V); d != "" {
+			if d := checkEff(ev, present, tv, dv, x.V); d != "" {
 				sig := "eff/" + where + "::" + x.key()
 				if x.V.K == "text" && present && ev != nil {
 					sig = "eff-text/" + n.Type.String() // a property of the type's marshalling, wherever it is used
+				}
+				if strings.HasPrefix(d, droppedZero) {
+					// one `omitempty` tag on one field with a non-zero default: named by the struct field's key
+					sig = "eff-dropped-zero/" + where + "::" + x.key()
 				}
 				f := vt.Failf(sig, "%s %v: wrote %s = %s (typed value correct), but %s", where, effPrefix, x.key(), x.V, d)
 				if !c.Soft(f, script) {
@@ -236,7 +260,6 @@ func checkFaithful(c *vt.C, script any, k *compKind, typed reflect.Value, eff ma
 		}
 	}
 	// not written ⇒ factory default
-	def := reflect.ValueOf(k.newCfg())
 	for _, n := range k.Nodes {
 		if n.Kind == kStruct || written[n.key()] {
 			continue
@@ -354,7 +377,8 @@ func checkList(c *vt.C, script any, k *compKind, n *schemaNode, typed reflect.Va
 			}
 			if eff != nil {
 				ev, present := effLookup(effElem, ew.P)
-				if d := checkEff(ev, present, tv, ew.V); d != "" {
+				// a written list replaces the default list: the default of every key of an element is the zero value
+				if d := checkEff(ev, present, tv, reflect.Value{}, ew.V); d != "" {
 					f := vt.Failf("list-elem-eff/"+where, "%s %v: %s[%d]: wrote %s = %s (typed value correct), but %s", k.name(), effPrefix, x.key(), i, ew.key(), ew.V, d)
 					if !c.Soft(f, script) {
 						return f
@@ -496,6 +520,166 @@ func checkTopology(s *Script, l *loaded) *vt.Finding {
 	return nil
 }
 
+// typeLabel names a leaf type for class labels.
+func typeLabel(t reflect.Type) string {
+	if t == durationType {
+		return "duration"
+	}
+	if implementsTextUnmarshaler(t) {
+		return "text:" + t.String()
+	}
+	switch t.Kind() {
+	case reflect.Slice:
+		return "list"
+	case reflect.Map:
+		return "map"
+	}
+	return t.Kind().String()
+}
+
+// compTyped finds the typed configuration of one component instance.
+func compTyped(cfg *otelcol.Config, sec, id string) reflect.Value {
+	var m reflect.Value
+	switch sec {
+	case secReceivers:
+		m = reflect.ValueOf(cfg.Receivers)
+	case secExporters:
+		m = reflect.ValueOf(cfg.Exporters)
+	case secProcessors:
+		m = reflect.ValueOf(cfg.Processors)
+	case secConnectors:
+		m = reflect.ValueOf(cfg.Connectors)
+	case secExtensions:
+		m = reflect.ValueOf(cfg.Extensions)
+	default:
+		return reflect.Value{}
+	}
+	for _, mk := range m.MapKeys() {
+		if fmt.Sprint(mk.Interface()) == id {
+			return m.MapIndex(mk)
+		}
+	}
+	return reflect.Value{}
+}
+
+// checkFixedPoint: the effective configuration is itself a configuration
+// document; whoever loads it (marshal -> load) must get, for every written
+// setting, the value the component got.  Opaque settings are exempt (they are
+// [REDACTED] in the effective configuration by design).  An effective
+// configuration that does not load again is counted, not reported (the
+// property does not promise it).
+func checkFixedPoint(c *vt.C, script any, s *Script, l *loaded) *vt.Finding {
+	if l.eff == nil || l.cfg == nil {
+		return nil
+	}
+	r := loadDoc(l.eff, false)
+	if r.panicV != nil {
+		return vt.Failf("panic/load/effective-config", "loading the effective configuration of a valid document panicked: %v\n%s", r.panicV, r.stack)
+	}
+	if r.loadErr != nil {
+		c.Class("fixed-point:effective-config-not-loadable")
+		noteOnce(c, "effective configuration rejected when loaded again: "+firstLine(r.loadErr.Error()))
+		return nil
+	}
+	c.Class("fixed-point:effective-config-loaded-again")
+	one := func(k *compKind, t1, t2 reflect.Value, effPrefix []string, ws []Write) *vt.Finding {
+		where := k.name()
+		for _, x := range ws {
+			n := k.byPath[x.key()]
+			if isMarker(x) || n == nil {
+				continue
+			}
+			type pair struct {
+				key    string
+				v      Val
+				a, b   reflect.Value
+				ok     bool
+				effKey []string
+			}
+			var pairs []pair
+			switch {
+			case n.Kind == kLeaf:
+				a, ok1 := lookup(t1, x.P)
+				if !ok1 {
+					continue
+				}
+				b, ok2 := lookup(t2, x.P)
+				pairs = append(pairs, pair{x.key(), x.V, a, b, ok2, append(append([]string{}, effPrefix...), x.P...)})
+			case n.Kind == kList && x.V.K == "list":
+				la, ok1 := lookup(t1, x.P)
+				lb, ok2 := lookup(t2, x.P)
+				if !ok1 || la.Kind() != reflect.Slice {
+					continue
+				}
+				if !ok2 || lb.Kind() != reflect.Slice || lb.Len() != la.Len() {
+					if la.Len() == 0 {
+						continue
+					}
+					nb := -1
+					if ok2 && lb.Kind() == reflect.Slice {
+						nb = lb.Len()
+					}
+					return vt.Failf("fixed-point-list/"+where+"::"+x.key(), "%s %v: wrote %s with %d elements; the effective configuration, loaded again, gives a list of %d", where, effPrefix, x.key(), la.Len(), nb)
+				}
+				for i, ews := range x.V.E {
+					if i >= la.Len() {
+						break
+					}
+					for _, ew := range ews {
+						en := n.Elem.byPath[ew.key()]
+						if en == nil || en.Kind != kLeaf {
+							continue
+						}
+						a, ok1 := lookup(la.Index(i), ew.P)
+						if !ok1 {
+							continue
+						}
+						b, ok2 := lookup(lb.Index(i), ew.P)
+						pairs = append(pairs, pair{fmt.Sprintf("%s[%d]::%s", x.key(), i, ew.key()), ew.V, a, b, ok2, nil})
+					}
+				}
+			}
+			for _, p := range pairs {
+				if p.v.K == "opaque" || p.v.K == "omap" {
+					continue
+				}
+				if p.ok && equalLoose(p.a, p.b) {
+					continue
+				}
+				sig := "fixed-point/" + where + "::" + x.key()
+				if p.effKey != nil && emptyTyped(p.a) {
+					if _, present := effLookup(l.eff, p.effKey); !present {
+						// same root cause as (and already reported by) the effective-configuration check
+						sig = "eff-dropped-zero/" + where + "::" + x.key()
+					}
+				}
+				got := "nothing (nil section)"
+				if p.ok {
+					got = show(p.b)
+				}
+				f := vt.Failf(sig, "%s %v: wrote %s = %s, the component got %s; the effective configuration, loaded again, gives %s — a reader of the effective configuration sees a different setting than the component", where, effPrefix, p.key, p.v, show(p.a), got)
+				if !c.Soft(f, script) {
+					return f
+				}
+			}
+		}
+		return nil
+	}
+	for _, comp := range s.Comps {
+		t1, t2 := compTyped(l.cfg, comp.Sec, comp.ID()), compTyped(r.cfg, comp.Sec, comp.ID())
+		if !t1.IsValid() {
+			continue
+		}
+		if !t2.IsValid() {
+			return vt.Failf("fixed-point-topology/"+comp.Sec, "%s %q is missing after loading the effective configuration again", comp.Sec, comp.ID())
+		}
+		if f := one(comp.kind(), t1, t2, []string{comp.Sec, comp.ID()}, comp.W); f != nil {
+			return f
+		}
+	}
+	return one(serviceKind, reflect.ValueOf(&l.cfg.Service), reflect.ValueOf(&r.cfg.Service), []string{secService}, s.Svc)
+}
+
 // ---------------------------------------------------------------------------
 // one case
 
@@ -614,6 +798,9 @@ func evaluate(c *vt.C, in Script) (nontrivial bool, key string, f *vt.Finding) {
 		return true, key, f
 	}
 	count(serviceKind, s.Svc)
+	if f := checkFixedPoint(c, in, &s, &l); f != nil {
+		return true, key, f
+	}
 	c.Class("written-leaves:"+bucket(leaves), "written-leaves-depth>=2:"+bucket(deep))
 	if sibl {
 		c.Class("written-siblings")
